@@ -30,7 +30,11 @@ EXPECTED_SHIPPED = {"x86/zoptab.go", "x86/zctors.go", "build/zinstructions.go", 
 # drops a stream shows up as a broken obligation instead of an empty, trivially green stream
 FLOORS_QUICK = {"match": 2500, "other-suffix-class": 300, "sibling": 100, "derive": 2500, "replace": 2500, "swap": 2000, "drop": 200, "extra": 200,
                 "replay": 3000, "pure-checks": 3000, "sweep": 1500, "accepted": 8000, "rejected": 5000, "layers-checks": 12000,
-                "doc-checks": 15000, "attr-checks": 8000, "attr-checks-branch-or-terminal": 200}
+                "doc-checks": 15000, "attr-checks": 8000, "attr-checks-branch-or-terminal": 200,
+                # operand-list lengths far from the arity (wrap-around of a narrowed operand count), per length class;
+                # by name through the three layers for variadic functions, through x86.VerifBuild for the others
+                "len:a+1": 1000, "len:a+2": 1000, "len:256+a": 1000, "len:255": 400, "len:256": 400, "len:257": 400, "len:512+a": 400,
+                "len:65536+a": 6, "len-by-name": 1500, "via-build": 3000}
 FLOORS_THOROUGH = dict(FLOORS_QUICK, **{"match": 9000, "derive": 9000, "replace": 9000, "swap": 8000, "sweep": 0, "replay": 20000, "pure-checks": 20000,
                                         "accepted": 30000, "rejected": 25000, "layers-checks": 60000, "doc-checks": 60000})
 
@@ -197,7 +201,11 @@ def run(ctx):
         "opc.Forms/opc.String/sffxs.Strings; thorough: all functions, three seeds. "
         "FIRST PASS per function: one matching operand sample per form admitted by its suffixes, samples of forms of other "
         "suffix classes, per sample the same-width sibling of every fixed-register/value operand and 2-3 near misses "
-        "(one operand replaced by a derived one-attribute change of a member of its class; operand replaced by a random universe "
+        "(operand-list LENGTHS: per distinct arity a of the admitted forms a matching sample extended to a+1, a+2, 256+a operands "
+        "(every selected function), 255, 256, 257, 512+a (every non-V function, 1/6 of the V block; thorough: all) and 65536+a (8 "
+        "functions; thorough also 1/40 of the rest) — variadic functions by name on all three layers, the others through "
+        "x86.VerifBuild, the body of their constructor; the model compares the unbounded length: build_none_of_long; "
+        "one operand replaced by a derived one-attribute change of a member of its class; operand replaced by a random universe "
         "operand, two operands swapped; operand dropped/added for variadic functions "
         "in BOTH tiers).  SECOND PASS (purity): per family up to 4 (thorough 10) operand lists that were accepted, preferring "
         "those most members accept, given to EVERY member of the family in a shuffled order and back in reverse. "
